@@ -369,6 +369,9 @@ func (m *Machine) concreteValue(t *Term, what string) uint64 {
 	if t.IsConst() {
 		return t.C
 	}
+	if sv := m.smallValues(t, m.cfg.MaxConcretise); sv != nil {
+		return m.splitSmall(t, sv, what).C
+	}
 	vals := m.enumerate(t, m.cfg.MaxConcretise)
 	if vals == nil {
 		m.concretiseCut++
